@@ -8,6 +8,7 @@ The type-checker part is compared with the Lean model `TypeCheck.tcheck` (class 
 values must pass the type check."""
 from .. import core, impl
 from ..gen import Gen, Opts, module_text, ty_sx, val_sx, features
+from ..codecs import value_tags
 from ..mutate import positions, replace, boundary_variants, admits, first_violation_names
 
 CODECS = ['ber', 'der', 'per', 'uper', 'oer', 'jer', 'xer', 'gser']
@@ -149,6 +150,12 @@ def run(ctx):
         same_name_nesting(rng, t)
         text = module_text([('A', t)])
         v = g.value(t)
+        for _ in range(20):       # the base value must be well-formed: every mandatory component present, also among the additions
+            if 'mandatory-addition-missing' not in value_tags(t, v, 'ber'):
+                break
+            v = g.value(t)
+        else:
+            continue
         tsx = ty_sx(t)
         # well-typed values are never rejected by the type check
         reqs.append('tcheck\t%s\t%s' % (tsx, py_sx(v)))
